@@ -53,7 +53,10 @@ Inductive kind :=
 | KSpec (fmt : N) (rdev : N).
 
 Record inode := mkInode { i_kind : kind; i_mode : N; i_uid : N; i_gid : N; i_xattrs : list (name * list N) }.
-Record host := mkHost { h_nodes : list (N * inode); h_next : N }.
+(* time stamps are modelled only as far as utimens goes: per inode, what the last futimens/utimensat calls left in
+   atime and mtime: untouched by utimens, set to an explicit value, or set to "now" *)
+Inductive tv := TKeep | TSet (sec nsec : N) | TNow.
+Record host := mkHost { h_nodes : list (N * inode); h_next : N; h_utimes : list (N * (tv * tv)) }.
 
 Record creds := mkCreds { euid : N; egid : N; fsetid : bool }.
 Definition root_creds := mkCreds 0 0 true.
@@ -75,9 +78,9 @@ Fixpoint assoc_del {A : Type} (k : N) (l : list (N * A)) : list (N * A) :=
   end.
 
 Definition get (h : host) (i : N) : option inode := assoc i (h_nodes h).
-Definition set (h : host) (i : N) (v : inode) : host := mkHost (assoc_set i v (h_nodes h)) (h_next h).
+Definition set (h : host) (i : N) (v : inode) : host := mkHost (assoc_set i v (h_nodes h)) (h_next h) (h_utimes h).
 Definition alloc (h : host) (v : inode) : N * host :=
-  (h_next h, mkHost (assoc_set (h_next h) v (h_nodes h)) (h_next h + 1)).
+  (h_next h, mkHost (assoc_set (h_next h) v (h_nodes h)) (h_next h + 1) (h_utimes h)).
 
 Definition upd (h : host) (i : N) (f : inode -> inode) : host :=
   match get h i with Some x => set h i (f x) | None => h end.
@@ -573,6 +576,17 @@ Definition sys_fallocate (c : creds) (h : host) (i : N) (mode off l : N) : res u
     | KDir _ _ _ => (Err EBADF, h)
     | _ => (Err EBADF, h)
     end
+  end.
+
+(* futimens / utimensat(…, 0) through the magic link: the inode itself; UTIME_OMIT leaves a field alone *)
+Definition tv_apply (spec old : tv) : tv := match spec with TKeep => old | _ => spec end.
+Definition utimes_of (h : host) (i : N) : tv * tv :=
+  match assoc i (h_utimes h) with Some p => p | None => (TKeep, TKeep) end.
+Definition sys_utimens (h : host) (i : N) (a m : tv) : res unit * host :=
+  match get h i with
+  | None => (Err EBADF, h)
+  | Some _ => (Ok tt, mkHost (h_nodes h) (h_next h)
+                             (assoc_set i (tv_apply a (fst (utimes_of h i)), tv_apply m (snd (utimes_of h i))) (h_utimes h)))
   end.
 
 Definition sys_readlink (h : host) (i : N) : res (list N) :=
